@@ -2054,8 +2054,14 @@ impl OutstationSession {
                     series.ecsn.increment();
                     let (response, next) =
                         self.format_read_response(database, false, series.ecsn, Iin2::default());
-                    self.write_solicited(io, writer, respond_to, response, database)
+                    let response = self
+                        .write_solicited(io, writer, respond_to, response, database)
                         .await?;
+                    // a repeated READ must be answered with THIS fragment, not with the header
+                    // of the first fragment of the series over the current buffer contents
+                    if let Some(last) = &mut self.state.last_valid_request {
+                        last.response = Some(response);
+                    }
                     match next {
                         None => return Ok(()),
                         Some(next) => {
